@@ -504,6 +504,9 @@ fn c05(cfg: &CCfg, e: &Exec, f: &Facts, vs: &mut Vec<Violation>, nt: &mut bool) 
                 Rec::PollStart(Task::Dispatch(_)) => poll_start = idx,
                 Rec::N("snap", sn) if sn.len() >= 5 => {
                     let (now, running, woken) = (sn[2], sn[3], sn[4]);
+                    if sn.get(5).copied().unwrap_or(0) != 0 {
+                        continue; // the dispatch has scheduled itself again: not idle yet
+                    }
                     for (i, c) in cfg.callers.iter().enumerate() {
                         let d_ns = c.deadline_ms as i128 * 1_000_000;
                         if now < d_ns + 1_000_000 || running & (1 << i) == 0 || woken & (1 << i) != 0 {
@@ -767,19 +770,13 @@ fn c10(cfg: &CCfg, e: &Exec, f: &Facts, vs: &mut Vec<Violation>, nt: &mut bool) 
     match (&f.eof_read, &f.dispatch_done, &f.dispatch_dropped) {
         (Some(eidx), done, None) => {
             *nt = true;
-            // the poll that read EOF must be the poll that completes the dispatch
-            let mut ok = false;
-            for r in &e.recs[*eidx..] {
-                match r {
-                    Rec::PollEnd(Task::Dispatch(_), ready) => {
-                        ok = *ready;
-                        break;
-                    }
-                    _ => {}
+            // "promptly": by the time the system is quiescent with the clock still frozen the
+            // dispatch has stopped (it normally stops in the very poll that read end-of-stream; an
+            // implementation that needs one more self-scheduled poll would be just as prompt)
+            if let Some((q1idx, q)) = &f.q1 {
+                if eidx < q1idx && q[1] != 0 {
+                    v(vs, "C10-eof-not-prompt", cfg, "the peer closed the read side, nothing is woken, the clock has not moved, and the dispatch is still running".into());
                 }
-            }
-            if !ok {
-                v(vs, "C10-eof-not-prompt", cfg, "dispatch did not stop in the poll that read end-of-stream".into());
             }
             if let Some((_, out)) = done {
                 if out != "Ok" {
